@@ -4438,6 +4438,11 @@ class FlowIR(object):
                 if isinstance(key, int) is False:
                     status_report[self.stage_identifier_to_stage_index(key)] = status_report.pop(key)
 
+            # VV: stages may share one dictionary (YAML anchors), give each stage its own before weights are written
+            for key in list(status_report):
+                if isinstance(status_report[key], dict):
+                    status_report[key] = dict(status_report[key])
+
             weights = []
             for idx in range(num_stages):
                 if idx not in flowir[self.FieldStatusReport]:
